@@ -12,6 +12,8 @@ Decided:
   C11.len    every length / count prefix is the length of the very collection written after it, and the reader
              reads exactly that many items (ranges start at 0)
   C11.uniq   the reader and the writer enforce the same single-instance rules, each flag tested and set consistently
+  C11.contig the incremental (try_push) and the batch (TryFrom<Vec>) constructor of Contiguous apply the same two adjacency
+             tests (valid_first on the first item, is_next on the others); nothing else builds a non-empty Contiguous
   C11.trunc  no length / count field is written through a truncating cast
   C11.tab    block type and picture type tables are inverse (C02/C03 check them against the RFC)
   C11.panic  engine B over the metadata writer entry points
@@ -42,6 +44,47 @@ def const_val(b, o):
 def grammar_term(b, t):
     import grammar
     return grammar.term_of(b, t)
+
+
+def contiguous_rules(F, ok, rep, P):
+    """metadata::contiguous::Contiguous: the one-by-one constructor (try_push, used by the readers) and the batch constructor
+    (TryFrom<Vec<T>>, open to callers) apply the same two tests - valid_first() to the item without a predecessor,
+    is_next(prev) to every other - and nothing else builds a non-empty Contiguous"""
+    R = P + ".contig"
+    n = 0
+    for path, where in (("metadata::contiguous::Contiguous::try_push", "try_push"), ("metadata::contiguous::is_contiguous", "is_contiguous")):
+        b = anchor(F, rep, R, path)
+        if b is None:
+            continue
+        seen = {}
+        for c in [b] + F.closures_of(b):
+            pf = ok.path_facts(c)
+            for bi, t in c.calls():
+                m = re.search(r"contiguous::Adjacent::(valid_first|is_next)$", t["f"].get("path") or callee_name(t))
+                if m:
+                    f = pf.get(bi, TOP)
+                    want = "^None$" if m.group(1) == "valid_first" else "^Some$"
+                    other = "^Some$" if want == "^None$" else "^None$"
+                    # on the wrong edge of an explicit match is a violation; inside a combinator closure there is no edge to test
+                    seen[m.group(1)] = seen.get(m.group(1), True) and not (f is not TOP and fact_match(f, "is", other) and not fact_match(f, "is", want))
+        n += 1
+        rep.check(R, "%s tests the first item with valid_first() and every later one with is_next(previous)" % where, seen == {"valid_first": True, "is_next": True}, loc_of(b), str(seen),
+                  "%s no longer applies both adjacency tests on their own edges (%s): a list that starts with an invalid first item (track 2, a non-zero first offset) or skips is accepted by one constructor and refused by the reader" % (where, seen))
+    rep.floor(R, "adjacency-checking constructors", n, 2)
+    tf = [b for b in F.bodies if b.promoted is None and b.kind != "Closure" and re.search(r"contiguous::Contiguous<MAX, T> as std::convert::TryFrom<std::vec::Vec<T>>>::try_from$", b.path)]
+    for b in tf[:1]:
+        ic = [t for c in [b] + F.closures_of(b) for _, t in c.calls() if re.search(r"contiguous::is_contiguous$", strip_generics(callee_name(t)))]
+        rep.check(R, "TryFrom<Vec<T>> accepts only what is_contiguous() accepts", len(ic) == 1, loc_of(b))
+    if not tf:
+        rep.bad(R, "anchor:Contiguous::try_from(Vec)", "", "not found")
+    for path in ("metadata::contiguous::Contiguous::try_extend", "metadata::contiguous::Contiguous::try_collect"):
+        b = anchor(F, rep, R, path)
+        if b is not None:
+            tp = [t for c in [b] + F.closures_of(b) for _, t in c.calls() if re.search(r"Contiguous::try_push$", strip_generics(callee_name(t)))]
+            rep.check(R, "%s adds items through try_push only" % path.rsplit("::", 1)[-1], len(tp) == 1 and not any(re.search(r"Vec::<T(, A)?>::(push|extend|insert|append)", callee_name(t)) for c in [b] + F.closures_of(b) for _, t in c.calls()), loc_of(b))
+    makers = sorted({strip_generics(b.path) if not b.path.startswith("<") else b.path for b in F.bodies if b.promoted is None and any(s_["rv"]["r"] == "agg" and s_["rv"].get("adt") == "metadata::contiguous::Contiguous" for bl in b.blocks for s_ in bl["s"])})
+    extra = [m for m in makers if not re.search(r"(Default>::default|Clone>::clone|Contiguous::with_capacity|TryFrom<std::vec::Vec<T>>>::try_from)$", m)]
+    rep.check(R, "a Contiguous value is built only empty, by clone, or by the checked TryFrom", not extra and len(makers) >= 3, "src/metadata/mod.rs", str(makers), "Contiguous is also constructed in %s" % extra)
 
 
 def run(ctx, rep):
@@ -214,6 +257,8 @@ def run(ctx, rep):
 
     from rules import lenlib
     lenlib.length_prefix_rules(ctx, rep, "C11", floor_w=1, floor_r=1)
+
+    contiguous_rules(F, ok, rep, "C11")
 
     # ---- C11.uniq ---------------------------------------------------------------------------------------------
     pairs_expected = {"seektable_read": "MultipleSeekTable", "vorbiscomment_read": "MultipleVorbisComment", "png_read": "MultiplePngIcon", "icon_read": "MultipleGeneralIcon"}
